@@ -107,11 +107,13 @@ Definition proc_step (n : Z) (ps : list (Z * procst)) (e : pentry) : option (lis
                        else {| nact := nact st; stack := []; held := held st; lasttaken := 0; outs := outs st;
                                dropped := dropped st; pcrashed := pcrashed st |} in
             if negb (pr_stream cur =? strm) && match held st with [] => false | _ :: _ => true end then None
-            else pstep st0 (PTake ev (pc e))
+            else if (kind =? 3) || (pc e =? 0) then pstep st0 (PTake ev (pc e))
+            else match pstep st0 (PTake ev 0) with Some s1 => pstep s1 (PSkipTo ev (pc e)) | None => None end
         | f :: _ =>
             match fph f with
             | InDo => pstep st (PPush ev (pc e))
-            | _ => Some st
+            | BeforeDo => if fidx f <? pc e then pstep st (PSkipTo ev (pc e)) else Some st
+            | MustOut => Some st
             end
         end in
       match st1 with
@@ -130,17 +132,21 @@ Definition proc_step (n : Z) (ps : list (Z * procst)) (e : pentry) : option (lis
       let ev := {| pseq := (if pc e =? 1 then 0 else pb e); pkind := pc e |} in
       (* with no actions at all the event taken from the stream goes straight to the output *)
       let st0 := match stack st with
-                 | [] => if nact st =? 0
-                         then (let base := if pr_stream cur =? pa e then st
-                                           else {| nact := nact st; stack := []; held := held st; lasttaken := 0; outs := outs st;
-                                                   dropped := dropped st; pcrashed := pcrashed st |} in
-                               pstep base (PTake ev 0))
-                         else None
+                 | [] => (let base := if pr_stream cur =? pa e then st
+                                      else {| nact := nact st; stack := []; held := held st; lasttaken := 0; outs := outs st;
+                                              dropped := dropped st; pcrashed := pcrashed st |} in
+                          if negb (pr_stream cur =? pa e) && match held st with [] => false | _ :: _ => true end then None
+                          else if nact st =? 0 then pstep base (PTake ev 0)
+                          else match pstep base (PTake ev 0) with       (* no action matched the event *)
+                               | Some s1 => pstep s1 (PSkipTo ev (nact st))
+                               | None => None
+                               end)
                  | f :: _ =>
                      (* a child spawned by the last action leaves the chain at once: no Do precedes its Out *)
                      match fph f with
                      | InDo => if pc e =? 1 then pstep st (PPush ev (nact st)) else None
-                     | _ => Some st
+                     | BeforeDo => pstep st (PSkipTo ev (nact st))
+                     | MustOut => Some st
                      end
                  end in
       match st0 with
@@ -182,8 +188,12 @@ Definition plabels_of (st : pst) (e : pentry) : option (list plabel) :=
       let busy := 8 <=? pd e in
       let ev := {| pseq := (if kind =? 1 then 0 else pb e); pkind := kind |} in
       let pre := match stack st with
-                 | [] => Some [PTake ev (pc e)]
-                 | f :: _ => match fph f with InDo => Some [PPush ev (pc e)] | _ => Some [] end
+                 | [] => if (kind =? 3) || (pc e =? 0) then Some [PTake ev (pc e)] else Some [PTake ev 0; PSkipTo ev (pc e)]
+                 | f :: _ => match fph f with
+                             | InDo => Some [PPush ev (pc e)]
+                             | BeforeDo => if fidx f <? pc e then Some [PSkipTo ev (pc e)] else Some []
+                             | MustOut => Some []
+                             end
                  end in
       match pre with Some l => Some (l ++ [PDo ev (pc e) busy]) | None => None end
   | 31 => match pres_of_Z (pd e), stack st with
@@ -193,10 +203,12 @@ Definition plabels_of (st : pst) (e : pentry) : option (list plabel) :=
   | 32 =>
       let ev := {| pseq := (if pc e =? 1 then 0 else pb e); pkind := pc e |} in
       match stack st with
-      | [] => if nact st =? 0 then Some [PTake ev 0; POut ev] else None
+      | [] => if nact st =? 0 then Some [PTake ev 0; POut ev]
+              else Some [PTake ev 0; PSkipTo ev (nact st); POut ev]      (* no action matched the event *)
       | f :: _ => match fph f with
                   | InDo => if pc e =? 1 then Some [PPush ev (nact st); POut ev] else None
-                  | _ => Some [POut ev]
+                  | BeforeDo => Some [PSkipTo ev (nact st); POut ev]      (* the remaining actions did not match *)
+                  | MustOut => Some [POut ev]
                   end
       end
   | 35 => match held_at (held st) (pc e - 1) with
